@@ -120,11 +120,16 @@ def fill_module(rng, mod, earlier):
             and not any(it[0] == 'from' and it[1] == '.' + s for it in m['items'])]
     if pkgs and rng.random() < 0.25:
         # optional sub-module of an existing package, imported as an attribute of the package
-        items.append(['tryfrom', rng.choice(pkgs), 'zqlsub_' + s])
+        pk = rng.choice(pkgs)
+        items.append(['tryfrom', pk, 'zqlsub_' + s])
+        if mod['name'].startswith(pk + '.') and rng.random() < 0.6:
+            items[-1].append('rel')         # written as a relative import from inside the package
     if pkgs and rng.random() < 0.2:
         # optional sub-module imported by its full name: the package itself is not loaded by this statement
         pk = 'zqlone' if 'zqlone' in pkgs and rng.random() < 0.8 else rng.choice(pkgs)
         items.append(['tryfromsub', pk, 'zqlsub_x' + s, 'KL_zqlsub_x' + s])
+        if mod['name'].startswith(pk + '.') and rng.random() < 0.6:
+            items[-1].append('rel')
     classes_here = []
     for i, k in enumerate(mod['iface']['classes']):
         bases = []
@@ -213,6 +218,14 @@ def fill_module(rng, mod, earlier):
 
 # ---------------------------------------------------------------- rendering
 
+def _spelled(mod, pkg, flags, dotted=False):
+    """The package as written in the import statement: absolute, or relative from a module inside it."""
+    if 'rel' in flags and mod['name'].startswith(pkg + '.'):
+        here = mod['name'] if mod.get('init') else mod['name'].rpartition('.')[0]
+        return '.' * (1 + here.count('.') - pkg.count('.'))
+    return pkg + ('.' if dotted else '')
+
+
 def render(mod):
     out = ['# module %s version %d' % (mod['name'], mod['version'])]
     for it in mod['items']:
@@ -230,12 +243,12 @@ def render(mod):
             out.append('    %s = None' % it[1])
         elif k == 'tryfrom':
             out.append('try:')
-            out.append('    from %s import %s' % (it[1], it[2]))
+            out.append('    from %s import %s' % (_spelled(mod, it[1], it[3:]), it[2]))
             out.append('except ImportError:')
             out.append('    %s = None' % it[2])
         elif k == 'tryfromsub':
             out.append('try:')
-            out.append('    from %s.%s import %s' % (it[1], it[2], it[3]))
+            out.append('    from %s%s import %s' % (_spelled(mod, it[1], it[4:], True), it[2], it[3]))
             out.append('except ImportError:')
             out.append('    %s = None' % it[3])
         elif k == 'class':
